@@ -28,6 +28,7 @@ from pathlib import Path
 
 from .. import PY, REPO, SPECS, VERIF
 from ..repo import child_env
+from ..c05_lib import payload_sizes
 from ..tlaval import iter_dump, to_tla
 from ..tlc import MachineryError, run_tlc
 from ..traces import validate
@@ -169,7 +170,7 @@ def run(ctx):
         return ("SPECIFICATION Spec\nCONSTANTS\n Deviations = " + devs + '\n Mode = "meta"\n'
                 ' StrVocab = {"_type", "_bytes", "Leaf", "AAAA", "w"}\n TypeName = "Leaf"\n'
                 + "".join(f"INVARIANT {i}\n" for i in invs))
-    ALL = ["Inv_Serialisable", "Inv_RoundTrip", "Inv_BinaryExcluded", "Inv_Wrap", "Inv_Cell"]
+    ALL = ["Inv_Serialisable", "Inv_RoundTrip", "Inv_BinaryExcluded", "Inv_Wrap", "Inv_Cell", "Inv_BinaryWhereDeclared"]
     meta_widths = [(2, 1, 1), (1, 2, 1)] if ctx.thorough else [(1, 1, 2)]
     pool = ThreadPoolExecutor(6)
     jobs = []          # (kind, name, extra, future)
@@ -267,8 +268,13 @@ def run(ctx):
     if not fx:
         raise MachineryError("no fixtures under sharepoint2text/tests/resources")
     fprocs = [_worker("fixtures", {"files": fx[i::6] if i < 6 else [], "all_files": fx, "wd": str(ctx.scratch / f"fx{i}"),
-                                    "seed": ctx.seed, "gen": i == 6},
-                      ctx.scratch, f"fx{i}") for i in range(7)]
+                                    "seed": ctx.seed, "gen": {6: "sheets", 7: "hostile"}.get(i, "")},
+                      ctx.scratch, f"fx{i}") for i in range(8)]
+    sizes = payload_sizes(ctx.thorough)
+    pbins = [[], [], []]
+    for n in sorted(sizes, reverse=True):
+        min(pbins, key=sum).append(n)
+    pprocs = [_worker("payloads", {"sizes": b, "seed": ctx.seed}, ctx.scratch, f"pay{i}") for i, b in enumerate(pbins) if b]
     eprocs = [_worker("clienv", {"wd": str(ctx.scratch / f"env-{i}"), "label": lab}, ctx.scratch, f"env{i}", env)
               for i, (lab, env) in enumerate(sorted(CLI_ENVS.items()))]
     inst_out = _collect(procs, "instances")
@@ -278,7 +284,10 @@ def run(ctx):
     if n_env < 2 * 3 * len(CLI_ENVS):
         raise MachineryError(f"only {n_env} CLI runs under the stdout environments: binding broken "
                              f"({[n for o in env_out for n in o['notes']][:4]})")
-    fx_out = fx_out + env_out
+    pay_out = _collect(pprocs, "payload instances")
+    if sum(len(o["events"]) for o in pay_out) != 2 * len(sizes):
+        raise MachineryError("payload instances missing: binding broken")
+    fx_out = fx_out + env_out + pay_out
     events = [e for o in inst_out for e in o["events"]]
     build_failed = sum(o["build_failed"] for o in inst_out)
     fx_events = [e for o in fx_out for e in o["events"]]
@@ -296,6 +305,11 @@ def run(ctx):
     if len(bundle_cli) < 8 or any(e["n"] < 2 for e in bundle_cli) or not n_read:
         raise MachineryError(f"multi-result CLI inputs ({len(bundle_cli)} runs) / replays with read streams ({n_read}) "
                              "missing: binding broken")
+    n_host = sum(1 for e in fx_events if e["a"] == "RoundTrip" and e.get("src", "").startswith("generated PDF"))
+    n_mail = sum(1 for e in fx_events if e["a"] == "RoundTrip" and ("generated eml" in e.get("src", "") or "generated mbox" in e.get("src", "")))
+    if n_host < 9 or n_mail < 8:
+        raise MachineryError(f"generated hostile PDFs ({n_host}) / mails ({n_mail}) missing: binding broken "
+                             f"({[n for n in notes if 'generated' in n][:4]})")
     if not n_item and all(e["eq"] and e["rc"] == 0 for e in bundle_cli):
         # (a wrongly shaped output has no items to look at: its Cli event is rejected instead)
         raise MachineryError("no unit of a multi-result CLI output with binary payloads was recorded: binding broken")
@@ -312,7 +326,8 @@ def run(ctx):
             return (f"{e['cls']} ({e.get('src', 'type-directed instance')}): "
                     + (e.get("exc") or ("from_json(json.loads(json.dumps(to_json()))) differs from the original"
                                         if e["out"] != e["v"] or e["same"].startswith("no")
-                                        else "binary-excluded JSON differs from the full JSON outside the binary fields")))
+                                        else "binary-excluded JSON differs from the full JSON outside the binary fields, or a "
+                                             "field that is not declared bytes / BytesIO / Any holds a binary value")))
         if e["a"] == "CliItem":
             return (f"CLI {e['mode']} binary={e['binary']} on {e['src']} ({e['cls']}): the printed item is not the "
                     + ("complete library JSON" if e["binary"] else "library JSON with exactly the binary fields null"))
@@ -392,6 +407,10 @@ def run(ctx):
                 "checked against its object; the CLI run again in processes with the stdout encoding of 4 environments "
                 "(utf-8, ascii, cp1252, C locale) on documents / file names with non-ASCII, non-BMP and undecodable "
                 "characters; generated XLSX / ODS sheets carry every typed cell kind in the header row too; "
+                "generated PDFs with hostile image /Alt /Title /Caption /TU and Info strings, eml / mbox messages with raw "
+                "8-bit bytes and RFC 2047 words in every header; directly built PdfImage / DocxImage instances with "
+                "payload sizes around 1/4(/8/16) MiB +-2 and every residue mod 3 (bytes and BytesIO path); the law "
+                "includes Serial!Prop_BinaryOnlyInBinaryFields (field values against the declared hints); "
                 "non-trivial = distinct abstract value with more than 8 nodes",
            exhaustive=not ctx.thorough,
            constants={"classes": len(schema), "instantiated": len(inst), "protocol_classes_skipped": skipped,
@@ -431,6 +450,18 @@ def _w_instances(job):
             e["_suspect"] = has_marker_dict(e["v"])
             events.append(e)
     return {"events": events, "build_failed": failed}
+
+
+def _w_payloads(job):
+    """Dataclass instances with payloads around every plausible chunk boundary (bytes and BytesIO path)."""
+    from ..c05_lib import execute, payload_instances
+    events = []
+    for what, x in payload_instances(job["sizes"], job["seed"]):
+        e = execute(x)
+        e["src"] = what
+        e["_suspect"] = False
+        events.append(e)
+    return {"events": events, "notes": []}
 
 
 def _typed_xlsx(path, seed, k):
@@ -584,7 +615,8 @@ def _w_fixtures(job):
     import sharepoint2text
     from sharepoint2text import cli
     from sharepoint2text.parsing.extractors.serialization import serialize_extraction
-    from ..c05_lib import Proj, execute, has_marker_dict, set_positions
+    from ..c05_lib import (HOSTILE_PDF_STRINGS, Proj, execute, has_marker_dict, hostile_mail, hostile_mbox,
+                           hostile_pdf, set_positions)
     logging.disable(logging.CRITICAL)
     for n in ("main", "_serialize_results", "_serialize_unit_results"):
         if not hasattr(cli, n):
@@ -593,7 +625,24 @@ def _w_fixtures(job):
     wd.mkdir(parents=True, exist_ok=True)
     files = [(f, os.path.relpath(f, os.environ.get("SP2T_REPO", "/repo"))) for f in job["files"]]
     events, notes = [], []
-    if job["gen"]:
+    if job["gen"] == "hostile":
+        # PDFs whose image /Alt, /Title, /Caption, /TU and Info strings hold bytes no text encoding of PDF
+        # explains; mails / mailboxes with raw 8-bit bytes and RFC 2047 words in every header
+        keys = [b"/Alt", b"/Title", b"/Caption", b"/TU"]
+        for n, (name, raw) in enumerate(sorted(HOSTILE_PDF_STRINGS.items())):
+            for key in {b"/Alt", keys[n % 4]}:
+                p = wd / f"hostile-{name}-{key[1:].decode()}.pdf"
+                p.write_bytes(hostile_pdf(raw, raw, key))
+                files.append((str(p), f"generated PDF, image {key.decode()} and Info strings = {name}"))
+        variants = ["ascii", "raw-utf8", "raw-latin1", "rfc2047"]
+        for var in variants:
+            p = wd / f"hostile-{var}.eml"
+            p.write_bytes(hostile_mail(var))
+            files.append((str(p), f"generated eml, every header {var}"))
+        p = wd / "hostile.mbox"
+        p.write_bytes(hostile_mbox(variants))
+        files.append((str(p), "generated mbox, every header ascii / raw-utf8 / raw-latin1 / rfc2047"))
+    if job["gen"] == "sheets":
         for k in range(3):
             p = wd / f"typed{k}.xlsx"
             _typed_xlsx(p, job["seed"], k)
@@ -650,7 +699,7 @@ def _w_fixtures(job):
         return e["j"]["t"] != "error"
 
     # multi-result inputs whose units carry binary payloads: archives of repo fixtures with pictures
-    if job["gen"]:
+    if job["gen"] == "sheets":
         import random
         import zipfile
         cands = []
@@ -774,5 +823,5 @@ if __name__ == "__main__":
         activate()
         job = json.loads(Path(sys.argv[3]).read_text())
         res = {"schema": _w_schema, "instances": _w_instances, "fixtures": _w_fixtures,
-               "clienv": _w_clienv}[sys.argv[2]](job)
+               "clienv": _w_clienv, "payloads": _w_payloads}[sys.argv[2]](job)
         Path(sys.argv[4]).write_text(json.dumps(res))
